@@ -7,7 +7,7 @@ use {
   anyhow::{Context, Result, anyhow},
   bitcoin::OutPoint,
   ord::{Index, index::event::Event, options::Options, settings::Settings},
-  ordinals::{Charm, Sat, SatPoint},
+  ordinals::{Charm, Rune, Sat, SatPoint},
   serde_json::{Value, json},
   std::{
     collections::{BTreeMap, BTreeSet},
@@ -111,21 +111,29 @@ pub struct Runner {
 }
 
 fn sp_json(node: &Node, sp: SatPoint) -> Value {
+  if sp.outpoint == ord::unbound_outpoint() {
+    // offsets at the unbound pseudo-output are counters, not sats
+    return json!(["unbound", sp.offset]);
+  }
   json!([node.outpoint_label(sp.outpoint), units(sp.offset)])
 }
 
-/// sats -> units, or a tagged string when not a multiple of K (reported by the spec)
+static NONUNIT: std::sync::Mutex<Vec<u64>> = std::sync::Mutex::new(Vec::new());
+
+/// sats -> units; a value that is not a multiple of K is recorded and reported in the State event
 pub fn units(sats: u64) -> Value {
-  if sats % K == 0 {
-    json!(sats / K)
-  } else {
-    json!(format!("nonunit:{sats}"))
+  if sats % K != 0 {
+    NONUNIT.lock().unwrap().push(sats);
   }
+  json!(sats / K)
 }
 
 impl Runner {
   pub fn new(sc: Scenario, opts: Opts) -> Result<Self> {
-    let node = Node::new(&sc.chain);
+    let mut node = Node::new(&sc.chain);
+    let g = genesis_txid(&sc.chain);
+    node.txids.insert("g".into(), g);
+    node.tx_labels.insert(g, "g".into());
     let dir = tempfile::TempDir::new()?;
     Ok(Self {
       sc,
@@ -135,7 +143,7 @@ impl Runner {
       events_rx: None,
       out: Vec::new(),
       opts,
-      outpoints: Vec::new(),
+      outpoints: vec!["g:0".to_string()],
       out_meta: BTreeMap::new(),
       insc_labels: Vec::new(),
       scripts: BTreeSet::new(),
@@ -206,6 +214,7 @@ impl Runner {
       "jubilee": jubilee,
       "subsidy": SUBSIDY_UNITS,
       "flags": flags,
+      "events": self.opts.events,
       "commitInterval": self.sc.commit_interval.unwrap_or(5000),
       "savepointInterval": self.sc.savepoint_interval.unwrap_or(10),
       "maxSavepoints": self.sc.max_savepoints.unwrap_or(2),
@@ -536,6 +545,7 @@ impl Runner {
   }
 
   pub fn project(&self) -> Result<Value> {
+    NONUNIT.lock().unwrap().clear();
     let index = self.index();
     let node = &self.node;
     let count = index.block_count()?;
@@ -594,6 +604,8 @@ impl Runner {
         }
         if s.is_empty() {
           name = "empty:0".into();
+        } else if s.len() >= 2 && s[0] == 0x6a && s[1] == 0x5d {
+          name = "stone".into();
         }
         o.insert("script".into(), json!(name));
       }
@@ -603,7 +615,7 @@ impl Runner {
           .unwrap_or_default();
         let list: Vec<Value> = with_sp
           .iter()
-          .map(|(sp, id)| json!([node.inscription_label(*id), units(sp.offset)]))
+          .map(|(sp, id)| json!([node.inscription_label(*id), sp_json(node, *sp)[1]]))
           .collect();
         o.insert("ins".into(), json!(list));
         o.insert("insRaw".into(), json!(ins.len()));
@@ -619,7 +631,7 @@ impl Runner {
     }
     let unknown_outs: Vec<String> = stored
       .iter()
-      .filter(|o| !known.contains(o) && o.txid != genesis_txid(&self.sc.chain))
+      .filter(|o| !known.contains(o))
       .map(|o| node.outpoint_label(*o))
       .collect();
     let unknown_rune_outs: Vec<String> = rune_balances
@@ -656,6 +668,7 @@ impl Runner {
           "parents": parents.iter().map(|p| node.inscription_label(*p)).collect::<Vec<_>>(),
           "children": children.iter().map(|p| node.inscription_label(*p)).collect::<Vec<_>>(),
           "idOk": entry.id == id,
+          "effCharms": index.verif_effective_charms(id)?.map(charm_names).unwrap_or_default(),
         });
         let o = rec.as_object_mut().unwrap();
         match entry.sat {
@@ -746,6 +759,10 @@ impl Runner {
           "he": opt64(t.and_then(|t| t.height.1)),
           "os": opt64(t.and_then(|t| t.offset.0)),
           "oe": opt64(t.and_then(|t| t.offset.1)),
+          "res": if e.spaced_rune.rune.is_reserved() {
+            let d = e.spaced_rune.rune.0 - Rune::reserved(0, 0).0;
+            json!([(d >> 32) as u64, (d & 0xffff_ffff) as u64])
+          } else { json!([]) },
           "byName": by_name.unwrap_or(json!([])),
           "etchingOf": etching_of.unwrap_or_default(),
         }));
@@ -784,12 +801,39 @@ impl Runner {
         rows.sort();
         addr.insert(sid.clone(), json!(rows));
       }
-      // raw multimap rows, keyed by script bytes, to catch rows for scripts that have no address
-      let mut n_rows = 0;
-      for (_k, v) in &dump["SCRIPT_PUBKEY_TO_OUTPOINT"] {
-        n_rows += v.split("],[").count();
+    }
+    // raw multimap rows [script name, outpoint label]
+    let mut addr_rows = Vec::new();
+    if has_addr {
+      let parse_bytes = |s: &str| -> Vec<u8> {
+        s.trim_matches(|c| c == '[' || c == ']')
+          .split(',')
+          .filter_map(|b| b.trim().parse::<u8>().ok())
+          .collect()
+      };
+      for (k, v) in &dump["SCRIPT_PUBKEY_TO_OUTPOINT"] {
+        let script = parse_bytes(k);
+        let mut name = String::from("?");
+        if script.is_empty() {
+          name = "empty:0".into();
+        } else if script.len() >= 2 && script[0] == 0x6a && script[1] == 0x5d {
+          name = "stone".into();
+        }
+        for sid in &self.scripts {
+          let (t, n) = sid.split_once(':').unwrap();
+          if crate::node::script_for(t, n.parse().unwrap()).as_bytes() == &script[..] {
+            name = sid.clone();
+          }
+        }
+        for val in v.split("],[") {
+          let bytes = parse_bytes(val);
+          if bytes.len() == 36 {
+            let txid = <bitcoin::Txid as bitcoin::hashes::Hash>::from_slice(&bytes[0..32]).unwrap();
+            let vout = u32::from_le_bytes(bytes[32..36].try_into().unwrap());
+            addr_rows.push(json!([name, node.outpoint_label(OutPoint { txid, vout })]));
+          }
+        }
       }
-      addr.insert("_rows".into(), json!(n_rows));
     }
 
     // lookups on sats (C02)
@@ -832,14 +876,13 @@ impl Runner {
         let b = a + len;
         k += 1;
         let r = index.find_range(Sat(a * K), Sat(b * K))?;
-        let pieces = match r {
-          None => json!("none"),
-          Some(v) => json!(v
-            .iter()
-            .map(|f| json!([units(f.start), units(f.size), node.outpoint_label(f.satpoint.outpoint), units(f.satpoint.offset)]))
-            .collect::<Vec<_>>()),
-        };
-        franges.push(json!([a, b, pieces]));
+        let found = r.is_some();
+        let pieces: Vec<Value> = r
+          .unwrap_or_default()
+          .iter()
+          .map(|f| json!([units(f.start), units(f.size), node.outpoint_label(f.satpoint.outpoint), units(f.satpoint.offset)]))
+          .collect();
+        franges.push(json!([a, b, found, pieces]));
       }
     }
 
@@ -862,6 +905,7 @@ impl Runner {
       "runes": runes,
       "rare": rare,
       "addr": addr,
+      "addrRows": addr_rows,
       "finds": finds,
       "franges": franges,
       "stats": {
@@ -870,6 +914,9 @@ impl Runner {
         "outputsTraversed": stat("11"), "satRanges": stat("14"),
       },
     });
+    ev.as_object_mut()
+      .unwrap()
+      .insert("nonunit".into(), json!(NONUNIT.lock().unwrap().clone()));
     if self.opts.digest {
       let (digest, tables) = Self::digest_of(index)?;
       ev.as_object_mut().unwrap().insert("digest".into(), json!(digest));
